@@ -148,11 +148,12 @@ class Variant:
                     else:
                         merged.append(oth[oi]); oi += 1
                 items = merged
+            tc = "," if self.attr_order_seed % 4 == 1 else ""   # a trailing comma is legal
             if self.split_attrs == 0:
-                lines.append("#[strum(%s)]" % ", ".join(items))
+                lines.append("#[strum(%s%s)]" % (", ".join(items), tc))
             elif self.split_attrs == 1:
                 for it in items:
-                    lines.append("#[strum(%s)]" % it)
+                    lines.append("#[strum(%s%s)]" % (it, tc))
             else:
                 groups = []
                 for it in items:
@@ -228,6 +229,9 @@ GENERICS = {
     "aT": ("<'a, T: Default>", "", "::<'static, u8>"),
     "N": ("<const N: usize>", "", "::<3>"),
     "TN": ("<T: Default, const N: usize>", "", "::<u8, 3>"),
+    "Nfree": ("<const N: usize>", "", "::<3>"),
+    "Tdef": ("<T: Default = u8>", "", "::<u8>"),
+    "TNdef": ("<T: Default = u8, const N: usize = 3>", "", "::<u8, 3>"),
     "aTw": ("<'a, T>", " where T: Clone + 'a", "::<'static, u8>"),
     "I": ("<I>", " where I: Iterator, I::Item: Clone", "::<std::vec::IntoIter<u8>>"),
     "aI": ("<'a, I: Iterator>", " where I::Item: 'a", "::<'static, std::vec::IntoIter<u8>>"),
@@ -252,6 +256,7 @@ class EnumSpec:
     vis: str = "pub"
     enum_attr_split: int = 0
     extra_enum_attrs: List[str] = field(default_factory=list)
+    attr_order_seed: int = 0
     strum_path: str = "strum"      # path used in the derive list
     tags: List[str] = field(default_factory=list)   # feature signature for evidence / signatures
 
@@ -286,16 +291,23 @@ class EnumSpec:
         ders = list(self.std_derives) + ["%s::%s" % (self.strum_path, d) for d in self.derives]
         if ders:
             lines.append("#[derive(%s)]" % ", ".join(ders))
+        rest = []
         items = self.enum_items()
         if items:
             if self.enum_attr_split == 0:
-                lines.append("#[strum(%s)]" % ", ".join(items))
+                rest.append("#[strum(%s)]" % ", ".join(items))
             else:
                 for it in items:
-                    lines.append("#[strum(%s)]" % it)
+                    rest.append("#[strum(%s)]" % it)
         if self.repr:
-            lines.append("#[repr(%s)]" % self.repr)
-        lines.extend(self.extra_enum_attrs)
+            rest.append("#[repr(%s)]" % self.repr)
+        rest.extend(self.extra_enum_attrs)
+        if self.attr_order_seed:
+            # the relative order of #[repr], #[strum(..)] and other attributes carries no meaning
+            random.Random(self.attr_order_seed).shuffle(rest)
+            if self.attr_order_seed % 3 == 0:
+                rest.insert(random.Random(self.attr_order_seed).randint(0, len(rest)), "#[allow(dead_code)]")
+        lines.extend(rest)
         decl, where, _ = GENERICS[self.generics]
         lines.append("%s enum %s%s%s {" % (self.vis, self.name, decl, where))
         for v in self.variants:
